@@ -22,9 +22,9 @@ from mc import world
 ID = 'C20'
 LEVEL = 'exploration'
 
-MNEMONICS = ['ld', 'ldx', 'l', 'mov', 'mov.b', 'add', 'a2', 'x_1m', 'Jmp']
-MACROS = ['mac', 'ldm', 'm.x', 'PUSH2']
-REGISTERS = ['a', 'x_1', 'sp', 'r1']
+MNEMONICS = ['ld', 'ldx', 'l', 'mov', 'mov.b', 'add', 'a2', 'x_1m', 'Jmp', '_brk', 'ld_']
+MACROS = ['mac', 'ldm', 'm.x', 'PUSH2', 'mac_']
+REGISTERS = ['a', 'x_1', 'sp', 'r1', '_t']
 PREDEFINED = ['KC', 'K_2', 'zn']
 COMPILER_DIRECTIVES = ['org', 'memzone', 'align']
 DATA_DIRECTIVES = ['fill', 'zero', 'zerountil', 'byte', '2byte', '4byte', '8byte', 'cstr', 'asciiz']
